@@ -531,7 +531,7 @@ class World(object):
     """one server (real loop) + any number of real clients + a simulated network"""
 
     def __init__(self, rng, dt=1 / 60, jitter=0.0, ctxt_setup=None, handler=None, root_key=None, blocklist=None,
-                 blocklist_after_construction=False):
+                 blocklist_after_construction=False, ctxt_setup_after_construction=False):
         from mpgameserver import ServerContext, EllipticCurvePrivateKey
         from mpgameserver.twisted import TwistedServer
         self.rng = rng
@@ -559,9 +559,12 @@ class World(object):
         self.ctxt.setInterval(dt)
         if blocklist is not None and not blocklist_after_construction:
             self.ctxt.setBlockList(blocklist)
-        if ctxt_setup:
+        if ctxt_setup and not ctxt_setup_after_construction:
             ctxt_setup(self.ctxt)
         self.server = TwistedServer(self.ctxt, SERVER_ADDR, install_signals=False)
+        if ctxt_setup and ctxt_setup_after_construction:
+            # the context is configured after the server object was built from it - still before the server starts
+            ctxt_setup(self.ctxt)
         if blocklist is not None and blocklist_after_construction:
             # "the configuration should be set prior to calling the run method": after construction is still prior to run
             self.ctxt.setBlockList(blocklist)
